@@ -333,6 +333,8 @@ func checkC17(p *core.Program, r *core.Report) {
 		"O17.5": "CI export dimensions = D, B; predicted definition names exist; output path is the imported file",
 		"O17.6": "clone transparency of in-place gadgets",
 		"O17.9": "extract-circuit writes the model into a truncated file (os.Create / O_TRUNC), so the file depends on the dimensions only",
+		"O17.12": "a gadget field of a kind the extractor does not encode in the instance name (bool, string, struct, array of ints, …) is given the same value at every construction site: instances that share a name share one Lean definition",
+		"O17.13": "the function that calls the extractor (and its in-repo callers that carry the dimensions) constructs no error for any depth 1..31 and positive batch size — finite-domain evaluation of its branch conditions",
 		"O17.7": "proof-file references resolve in the model",
 		"O17.8": "extraction deterministic; ExtractLean(deletion, insertion) under SemaphoreMTB/BN254",
 	} {
@@ -789,6 +791,10 @@ func checkC17(p *core.Program, r *core.Report) {
 	r.Floor("trace symbols checked", 1000)
 	r.Floor("width agreements", 4)
 
+	// ---- O17.13 extraction refuses no supported dimension
+	checkExtractorRefusals(p, r)
+	// ---- O17.12 fields the instance name does not encode
+	checkNameBlindFields(p, r, ctx, gadgets)
 	// ---- O17.5 dimensions
 	checkLeanDimensions(p, r, model, gadgets, roles, fvDir)
 	// ---- O17.7 references
@@ -1228,4 +1234,97 @@ func checkExtractorSupports(p *core.Program, r *core.Report, defs []*gadgetInfo)
 
 func implementsAPIMethod(name string) bool {
 	return name != "" && name[0] >= 'A' && name[0] <= 'Z'
+}
+
+
+// checkNameBlindFields decides O17.12. The extractor names a gadget instance by its type, the lengths of its
+// variable-typed slice/array fields and the values of its integer fields, and emits one Lean definition per *name* — the
+// first instance it meets. A field of any other kind (bool, string, float, a struct, an array of ints) is invisible in the
+// name: two instances that differ only in such a field share one definition, so the model describes the first and the
+// compiled circuit contains both. Every such field must therefore be given the same value at every construction site of the
+// gadget type in definition code (today: the Keccak tables, handed down unchanged).
+func checkNameBlindFields(p *core.Program, r *core.Report, ctx *circuitCtx, gadgets map[string]*goGadget) {
+	type site struct {
+		key, pos, in string
+	}
+	vals := map[string][]site{} // "Type.field" -> distinct values
+	nFields := 0
+	blind := map[string][]string{}
+	for name, g := range gadgets {
+		st, ok := g.T.Underlying().(*types.Struct)
+		if !ok {
+			continue
+		}
+		for i := 0; i < st.NumFields(); i++ {
+			ft := st.Field(i).Type()
+			if _, isVar := varDepth(ft); isVar {
+				continue
+			}
+			if b, ok := types.Unalias(ft).Underlying().(*types.Basic); ok && b.Info()&types.IsInteger != 0 {
+				continue
+			}
+			blind[name] = append(blind[name], st.Field(i).Name())
+			nFields++
+		}
+	}
+	var names []string
+	for n := range gadgets {
+		names = append(names, n)
+	}
+	sort.Strings(names)
+	for _, n := range names {
+		g := gadgets[n]
+		gi := ctx.define(g.T, g.Fn.Name())
+		if gi == nil {
+			continue
+		}
+		for _, e := range gi.Events {
+			if e.Term.K != tf.KGadget {
+				continue
+			}
+			cn := e.Term.Name
+			if i := strings.LastIndex(cn, "."); i >= 0 {
+				cn = cn[i+1:]
+			}
+			for _, f := range blind[cn] {
+				v := e.Term.FieldOf(f)
+				key := "<zero value>"
+				if v != nil {
+					key = describe(gi.Ev.Resolve(v))
+				}
+				k := cn + "." + f
+				dup := false
+				for _, s0 := range vals[k] {
+					if s0.key == key {
+						dup = true
+					}
+				}
+				if !dup {
+					vals[k] = append(vals[k], site{key, p.Pos(e.Instr.Pos()), g.Simple})
+				}
+			}
+		}
+	}
+	var bad []string
+	var keys []string
+	for k := range vals {
+		keys = append(keys, k)
+	}
+	sort.Strings(keys)
+	for _, k := range keys {
+		if len(vals[k]) > 1 {
+			var parts []string
+			for _, s0 := range vals[k] {
+				parts = append(parts, fmt.Sprintf("%s in %s at %s", s0.key, s0.in, s0.pos))
+			}
+			bad = append(bad, fmt.Sprintf("field %s (not part of the instance name) is given different values: %s", k, strings.Join(parts, " / ")))
+		}
+	}
+	r.Count("name-blind gadget fields", nFields)
+	cn := "gadget fields outside the instance name: same value at every construction site"
+	if len(bad) == 0 {
+		r.OK("O17.12", cn, "-", "%d field(s) of kinds the extractor does not encode in instance names; each is given one value wherever its gadget is constructed", nFields)
+	} else {
+		r.Violation("O17.12", cn, "-", "%s: the extractor emits one definition per name (the first instance met), so the model describes one of these instances and the compiled circuit contains both", strings.Join(bad, "; "))
+	}
 }
